@@ -122,8 +122,10 @@ def work(item):
     mc = mcx.worker_mc()
     mark = REGIONAL.get(lang) or lattice.mark(lang)
     tag = lang
-    if lang in REGIONAL and lang.lower() not in ("en-gb", "zh-tw"):
-        lang = lang.split("-")[0]             # for keys, messages and the per-configuration cache; the preference is set to the full tag
+    if lang in REGIONAL:
+        # for keys, messages and the per-configuration cache (the preference is set to the full tag): the base language, or - where the
+        # region has rule files of its own - the directory's (lower-case) name
+        lang = lang.lower() if lang.lower() in ("en-gb", "zh-tw") else lang.split("-")[0]
     setup = [["rules_dir", mcx.RULES], ["pref", "TTS", "none"], ["pref", "Language", tag], ["pref", "SpeechStyle", style], ["pref", "Verbosity", verb]]
     built = []
     special = {}
